@@ -45,7 +45,7 @@ LEVEL_NOTE = (
 TECHNIQUE = ("Lean 4 proofs about path-based graph definitions and hand models of the fixed-point/numbering/frontier code; "
              "verified validator for Lengauer-Tarjan outputs; differential correspondence on real ControlFlowGraph objects")
 RULE = ("cases = real ControlFlowGraph objects: every labelled digraph with entry 0 whose nodes are all reachable, n <= 4 with "
-        "self-loops (quick: n=4 strided) and n = 5 without self-loops (thorough), each also reversed for the post-dominator side "
+        "self-loops (both tiers) and n = 5 without self-loops (thorough; quick samples them with odd strides), each also reversed for the post-dominator side "
         "(exit 0); random tree+extra-edge graphs, structured (reducible) CFGs, chains/ladders with back and cross edges, dense graphs, "
         "IR procedures through CfgInfo, up to 200 nodes. distinct = distinct (kind, n, edge set, entry/exit); non-trivial = some node's "
         "idom differs from its DFS parent (Lengauer-Tarjan had to use semidominators/buckets) or a non-empty dominance frontier, "
@@ -55,6 +55,8 @@ TRUSTED = [
     "Spec.Graph (paths, dominance, immediate dominator, dominance frontier, post-dominance = dominance in the reversed graph; "
     "pdom_iff_paths relates it to forward paths to the exit)",
     "the harness' reading of the real objects (graph.nodes order = node index; set iteration order of suc_map/pre_map)",
+    "Lean's code generator + bundled clang (the driver runs as a native executable built from the same Lean definitions; "
+    "it is cross-checked against the interpreter on the corpus in every run; C25_INTERPRETED=1 forces the interpreter)",
 ]
 ASSUMPTIONS = [
     "dominator side: every node is reachable from the entry (as the property says); otherwise lt.py raises KeyError on an unreachable "
@@ -232,10 +234,45 @@ def lean_env():
     return _ENV
 
 
+NATIVE_MODS = ["PpciVerif.Model.Proto", "PpciVerif.Model.Dom", "PpciVerif.Model.LT", "PpciVerif.Spec.Graph",
+               "Drivers.C25Impl", "Drivers.C25"]
+
+
+def native_driver():
+    """Compile Drivers/C25.lean to a native executable with Lean's own compiler (lake module facet `o` + leanc).
+    Same Lean definitions as `lean --run Drivers/C25.lean`, ~40x faster; returns None when that is not possible
+    (the interpreted driver is used then)."""
+    import fcntl
+    exe = common.LEAN / ".lake" / "build" / "c25" / "driver"
+    lock = open(common.LEAN / ".build.lock", "w")
+    fcntl.flock(lock, fcntl.LOCK_EX)
+    try:
+        p = subprocess.run(["lake", "build"] + [m + ":o" for m in NATIVE_MODS], cwd=common.LEAN, capture_output=True, text=True)
+        if p.returncode != 0:
+            return None
+        objs = [common.LEAN / ".lake" / "build" / "ir" / (m.replace(".", "/") + ".c.o.export") for m in NATIVE_MODS]
+        if not all(o.exists() for o in objs):
+            return None
+        if not exe.exists() or any(o.stat().st_mtime > exe.stat().st_mtime for o in objs):
+            exe.parent.mkdir(parents=True, exist_ok=True)
+            tmp = exe.with_suffix(".tmp%d" % os.getpid())
+            p = subprocess.run(["leanc", "-o", str(tmp)] + [str(o) for o in objs], cwd=common.LEAN, capture_output=True, text=True)
+            if p.returncode != 0:
+                return None
+            os.replace(tmp, exe)
+        return str(exe)
+    except OSError:
+        return None
+    finally:
+        fcntl.flock(lock, fcntl.LOCK_UN)
+        lock.close()
+
+
 def drive(lines, env, timeout=3000):
     if not lines:
         return []
-    p = subprocess.run(["lean", "--run", "Drivers/C25.lean"], cwd=common.LEAN, env=env, input="".join(l + "\n" for l in lines),
+    cmd = [env["C25_NATIVE"]] if env.get("C25_NATIVE") else ["lean", "--run", "Drivers/C25.lean"]
+    p = subprocess.run(cmd, cwd=common.LEAN, env=env, input="".join(l + "\n" for l in lines),
                        capture_output=True, text=True, timeout=timeout)
     out = p.stdout.splitlines()
     if p.returncode != 0 or len(out) != len(lines):
@@ -272,15 +309,27 @@ class Res:
     def count(self, k, n=1):
         self.counts[k] = self.counts.get(k, 0) + n
 
+    @staticmethod
+    def size(case):
+        return (case.get("n", 0), len(case.get("edges", ()))) if isinstance(case, dict) else (0, 0)
+
+    def keep(self, lst, key, val, item):
+        """keep the 2 smallest cases per signature (the smallest one becomes the replay)"""
+        same = [f for f in lst if f[key] == val]
+        if len(same) < 2:
+            lst.append(item)
+        else:
+            worst = max(same, key=lambda f: self.size(f["case"]))
+            if self.size(item["case"]) < self.size(worst["case"]):
+                lst[lst.index(worst)] = item
+
     def fail(self, sig, what, case, **detail):
         self.count("fail_" + sig)
-        if sum(1 for f in self.fails if f["signature"] == sig) < 3:
-            self.fails.append({"signature": sig, "what": what, "case": case, **detail})
+        self.keep(self.fails, "signature", sig, {"signature": sig, "what": what, "case": case, **detail})
 
     def dis(self, what, case, impl, model):
         self.count("disagree_" + what)
-        if sum(1 for f in self.disagree if f["what"] == what) < 3:
-            self.disagree.append({"what": what, "case": case, "impl": impl, "model": model})
+        self.keep(self.disagree, "what", what, {"what": what, "case": case, "impl": impl, "model": model})
 
 
 def popcount(x):
@@ -307,7 +356,7 @@ def bits(m):
 
 
 def eval_dom(res, case, g, nodes, idx, succ, pred, real, rep):
-    n = len(nodes)
+    n = nodes if isinstance(nodes, int) else len(nodes)
     res.count("eval_dom_graph")
     res.count("eval_dom_queries", 2 * n * n + 3 * n)
     res.count(f"size_dom_{min(n, 256).bit_length()}")
@@ -360,7 +409,7 @@ def eval_dom(res, case, g, nodes, idx, succ, pred, real, rep):
 
 
 def eval_post(res, case, nodes, succ, real, rep):
-    n = len(nodes)
+    n = nodes if isinstance(nodes, int) else len(nodes)
     res.count("eval_post_graph")
     res.count("eval_post_queries", n * n + n)
     if rep["wf"] != 1:
@@ -420,9 +469,11 @@ def enum_cases(n, selfloops, lo, hi, step):
 
 def run_batch(args):
     """worker: (spec, env) -> Res as dict"""
+    import gc
     spec, env = args
     res = Res()
     t0 = time.time()
+    gc.disable()   # thousands of live (cyclic) graph objects make generational collections quadratic; collect once at the end
     def gen_all():
         for sp in spec:
             if sp[0] == "enum":
@@ -451,11 +502,11 @@ def run_batch(args):
                 real = real_dom(g, nodes, idx)
                 ridom = real["lt"] if isinstance(real["lt"], list) else (real["idom"] if isinstance(real["idom"], list) else [-1] * len(nodes))
                 lines.append(f"D {len(nodes)} {e} {rows(succ)} {rows(pred)} {json.dumps(ridom, separators=(',', ':'))}")
-                todo.append(("D", case, g, nodes, idx, succ, pred, real, info))
+                todo.append(("D", case, None, nodes if info is not None else len(nodes), None, succ, pred, real, info))
             if "P" in sides:
                 real = real_post(g, nodes, idx)
                 lines.append(f"P {len(nodes)} {x} {rows(succ)}")
-                todo.append(("P", case, g, nodes, idx, succ, pred, real, info))
+                todo.append(("P", case, None, len(nodes), None, succ, pred, real, None))
         except common.BrokenCheck:
             raise
         except Exception as ex:  # noqa
@@ -481,6 +532,9 @@ def run_batch(args):
                     res.fail("cfginfo.df:mismatch", f"CfgInfo.df = {got}, by definition {want}", case)
         else:
             eval_post(res, case, nodes, succ, real, rep)
+    del todo
+    gc.enable()
+    gc.collect()
     return res.__dict__
 
 
@@ -687,14 +741,11 @@ def random_cases(ctx):
 
 
 # --------------------------------------------------------------------------------------
-def merge(ctx, r):
+def merge(ctx, r, fails, dis):
     for k, v in r["counts"].items():
         ctx.count(k, v)
-    for f in r["fails"]:
-        f = dict(f)
-        ctx.fail(f.pop("signature"), f.pop("what"), f.pop("case"), **f)
-    for d in r["disagree"]:
-        ctx.disagree(d["what"], d["case"], d["impl"], d["model"])
+    fails += r["fails"]
+    dis += r["disagree"]
     for k in r["nontriv"]:
         ctx.nontrivial(k)
     for s in r["samples"]:
@@ -702,8 +753,24 @@ def merge(ctx, r):
 
 
 def check(ctx, only=None):
-    env = lean_env()
+    env = dict(lean_env())
     t0 = time.time()
+    exe = None if os.environ.get("C25_INTERPRETED") else native_driver()
+    if exe:
+        env["C25_NATIVE"] = exe
+        # the native executable and the interpreted driver (`lean --run`, the documented route) must agree
+        probe = []
+        for c in CORPUS:
+            if c.get("kind") != "ir":
+                g = build(c)
+                nodes, idx, succ, pred = extract(g)
+                probe.append(f"D {len(nodes)} {idx[g.entry_node]} {rows(succ)} {rows(pred)} {json.dumps([-1] * len(nodes), separators=(',', ':'))}")
+                probe.append(f"P {len(nodes)} {idx[g.exit_node]} {rows(succ)}")
+        if drive(probe, env) != ctx.driver("C25", probe):
+            raise common.BrokenCheck("native and interpreted C25 driver disagree")
+        ctx.extra_cov["driver"] = "native executable compiled from Drivers/C25.lean (lake :o facets + leanc); cross-checked against `lean --run` on the corpus"
+    else:
+        ctx.extra_cov["driver"] = "interpreted (`lean --run Drivers/C25.lean`)"
     jobs = []        # (estimated cost, [spec, ...])
     if only is not None:
         jobs.append((1, [("list", only)]))
@@ -720,11 +787,8 @@ def check(ctx, only=None):
                 st = 9973 + 2 * ctx.rng.randrange(500)
                 jobs.append(((1 << 25) // st, [("enum", 5, True, ctx.rng.randrange(997), 1 << 25, st)]))
         else:
-            # 4 nodes with self-loops is 2^16 edge sets: a seed-dependent eighth here, all of them in the thorough tier
-            # (odd stride: a power-of-two stride would pin the low edge bits, i.e. the out-edges of the entry)
-            off = ctx.rng.randrange(7)
-            for lo in range(0, 1 << 16, 1 << 13):
-                jobs.append((1170, [("enum", 4, True, lo + (off - lo) % 7, lo + (1 << 13), 7)]))
+            for lo in range(0, 1 << 16, 1 << 12):
+                jobs.append((4096, [("enum", 4, True, lo, lo + (1 << 12), 1)]))
             for _ in range(8):
                 st = 1009 + 2 * ctx.rng.randrange(100)
                 jobs.append(((1 << 20) // st, [("enum", 5, False, ctx.rng.randrange(499), 1 << 20, st)]))
@@ -748,12 +812,19 @@ def check(ctx, only=None):
             load[i] += cost
         bins = [b for b in bins if b]
     with multiprocessing.get_context("fork").Pool(16) as pool:
+        fails, dis = [], []
         for r in pool.imap_unordered(run_batch, [(b, env) for b in bins]):
-            merge(ctx, r)
-    ctx.extra_cov["exhaustive"] = bool(ctx.thorough) and only is None
+            merge(ctx, r, fails, dis)
+    # smallest failing graph first: the first failure of a signature becomes its replay file
+    for f in sorted(fails, key=lambda f: Res.size(f["case"])):
+        f = dict(f)
+        ctx.fail(f.pop("signature"), f.pop("what"), f.pop("case"), **f)
+    for d in sorted(dis, key=lambda d: Res.size(d["case"]))[:200]:
+        ctx.disagree(d["what"], d["case"], d["impl"], d["model"])
+    ctx.extra_cov["exhaustive"] = only is None
     ctx.extra_cov["exhaustive_domain"] = (
         "all labelled digraphs with entry 0 and all nodes reachable: n<=4 incl. self-loops and n=5 without self-loops (thorough); "
-        "n<=3 complete, n=4 every 7th edge set, n=5 sampled (quick); each also reversed with exit 0 for the post-dominator side")
+        "n<=4 complete incl. self-loops, n=5 sampled with odd strides (quick); each also reversed with exit 0 for the post-dominator side")
     ctx.extra_cov["lean_validator"] = "Spec.Graph.checkIdom accepted %d / %d real Lengauer-Tarjan outputs" % (
         ctx.counts.get("validator_accepts", 0), ctx.counts.get("validator_accepts", 0) + ctx.counts.get("validator_rejects", 0))
     ctx.extra_cov["check_wall_s"] = round(time.time() - t0, 1)
